@@ -321,6 +321,77 @@ fn clone_machine(log: &mut Log, rng: &mut Rng, steps: u64) {
     }
 }
 
+/// The clone machine for the composite types (two big integers, or a big integer plus exponent and precision): the
+/// same register discipline, values compared structurally (a clone must reproduce the representation, precision included).
+fn clone_machine_g<T: Clone>(log: &mut Log, rng: &mut Rng, steps: u64, ty: &str, gen: &dyn Fn(&mut Rng) -> T, enc: &dyn Fn(&T) -> Value,
+                             mutate: &dyn Fn(&mut T, &mut Rng)) {
+    let mut regs: Vec<T> = (0..NREG).map(|_| gen(rng)).collect();
+    let snapshot = |regs: &Vec<T>| Value::Array(regs.iter().map(|r| enc(r)).collect());
+    log.ev(json!({"prop": "C15", "fam": "cloneg", "ty": ty, "op": "init", "dst": 1, "src": 1, "v": enc(&regs[0]), "regs": snapshot(&regs)}));
+    for _ in 0..steps {
+        let dst = rng.below(NREG as u64) as usize;
+        let src = rng.below(NREG as u64) as usize;
+        let kind = rng.below(10);
+        let step = guarded(|| match kind {
+            0 | 1 => {
+                regs[dst] = gen(rng);
+                "set"
+            }
+            2 | 3 => {
+                regs[dst] = regs[src].clone();
+                "clone"
+            }
+            4 | 5 | 6 | 7 => {
+                if dst == src || rng.coin() {
+                    let s = regs[src].clone();
+                    regs[dst].clone_from(&s);
+                } else {
+                    let (a, b) = if dst < src { let (l, r) = regs.split_at_mut(src); (&mut l[dst], &r[0]) } else { let (l, r) = regs.split_at_mut(dst); (&mut r[0], &l[src]) };
+                    a.clone_from(b);
+                }
+                "clone_from"
+            }
+            _ => {
+                mutate(&mut regs[dst], rng);
+                "mut"
+            }
+        });
+        let op = match step {
+            Ok(op) => op,
+            Err(_) => "panicked",
+        };
+        log.ev(json!({"prop": "C15", "fam": "cloneg", "ty": ty, "op": op, "dst": dst + 1, "src": src + 1, "v": enc(&regs[dst]), "regs": snapshot(&regs)}));
+    }
+}
+fn clone_machines_composite(log: &mut Log, rng: &mut Rng, steps: u64) {
+    let sizes = [0usize, 1, 2, 2, 3, 3, 4, 4, 5, 6, 7, 9, 12, 17];
+    let big = |rng: &mut Rng| -> IBig {
+        let nbytes = 8 * *rng.pick(&sizes);
+        let pat = rng.next();
+        ibig_from_parts(rng.coin(), &pattern_bytes(rng, nbytes, pat))
+    };
+    let ubig1 = |rng: &mut Rng| -> UBig {
+        let nbytes = 8 * *rng.pick(&sizes);
+        let pat = rng.next();
+        ubig_from_bytes(&pattern_bytes(rng, nbytes, pat)) + UBig::ONE
+    };
+    let enc_q = |n: &IBig, d: &UBig| json!({"num": enc_i(n), "den": enc_u(d)});
+    clone_machine_g::<RBig>(log, rng, steps, "RBig", &|r| RBig::from_parts(big(r), ubig1(r)), &|x| enc_q(x.numerator(), x.denominator()),
+        &|x, r| { if r.coin() { *x += RBig::ONE } else { *x *= RBig::from_parts(IBig::from(3), UBig::from(7u8)) } });
+    clone_machine_g::<Relaxed>(log, rng, steps, "Relaxed", &|r| Relaxed::from_parts(big(r), ubig1(r)), &|x| enc_q(x.numerator(), x.denominator()),
+        &|x, r| { if r.coin() { *x += Relaxed::ONE } else { *x *= Relaxed::from_parts(IBig::from(3), UBig::from(7u8)) } });
+    type F2 = FBig<dashu_float::round::mode::Zero, 2>;
+    type D10 = FBig<dashu_float::round::mode::HalfAway, 10>;
+    clone_machine_g::<F2>(log, rng, steps, "FBig", &|r| {
+            let x = F2::from_parts(big(r), r.range(-300, 300) as isize);
+            if r.coin() { x } else { let p = x.precision() + r.below(200) as usize; x.with_precision(p).value() }
+        }, &|x| enc_f(x), &|x, r| { if r.coin() { *x += F2::ONE } else { *x <<= 3 } });
+    clone_machine_g::<D10>(log, rng, steps, "DBig", &|r| {
+            let x = D10::from_parts(big(r), r.range(-40, 40) as isize);
+            if r.coin() { x } else { let p = x.precision() + r.below(60) as usize; x.with_precision(p).value() }
+        }, &|x| enc_f(x), &|x, r| { if r.coin() { *x += D10::ONE } else { *x *= D10::from(7) } });
+}
+
 fn main() {
     let args = &start();
     let mut log = Log::create(&args.out);
@@ -328,6 +399,7 @@ fn main() {
     let what = args.extra.first().map(|s| s.as_str()).unwrap_or("forms");
     if what == "clone" {
         clone_machine(&mut log, &mut rng, args.n);
+        clone_machines_composite(&mut log, &mut rng, args.n / 6 + 10);
     } else {
         for i in 0..args.n {
             // a library panic while building operands must not take the driver down
